@@ -279,6 +279,14 @@ impl<'a> Walker<'a> {
         });
     }
 
+    pub fn visited_keys(&self) -> Vec<CKey> {
+        let mut v = Vec::new();
+        for m in self.visited.iter() {
+            v.extend(m.lock().unwrap().keys().copied());
+        }
+        v
+    }
+
     pub fn distinct_states(&self) -> u64 {
         self.visited.iter().map(|m| m.lock().unwrap().len() as u64).sum()
     }
@@ -332,8 +340,39 @@ impl<'a> Walker<'a> {
             applied.push(im);
             pos = pos.make(m);
         }
+        // long prefixes (pre-rolled games, C04): remember every observable before each prefix ply
+        // so that the whole game can be unwound afterwards
+        let deep = self.cfg.flags & F04 != 0 && item.prefix.len() > 16;
         let mut path: Vec<Move> = Vec::new();
-        let _ = self.node(l, &mut board, &pos, item.remaining, &mut path, item);
+        let r = self.node(l, &mut board, &pos, item.remaining, &mut path, item);
+        if deep && r.is_ok() {
+            // replay bookkeeping: rebuild the snapshots by walking the prefix again on a second board
+            let mut b2 = build_board(&item.root);
+            let mut snaps = Vec::with_capacity(item.prefix.len());
+            for im in applied.iter() {
+                snaps.push(snapshot(&b2));
+                if !matches!(guarded(|| im.apply(&mut b2)), Ok(Ok(()))) {
+                    return;
+                }
+                b2.toggle_turn();
+            }
+            for (k, im) in applied.iter().enumerate().rev() {
+                board.toggle_turn();
+                match guarded(|| im.undo(&mut board)) {
+                    Ok(Ok(())) => {}
+                    other => {
+                        self.viol("C04", "undo-failed(long-game)", item, &[], format!("undoing ply {} of a {}-ply game: {:?}", k + 1, applied.len(), other.map(|r| r.map_err(|e| e.to_string()))));
+                        return;
+                    }
+                }
+                l.n.add("long_game_undo_comparisons", 1);
+                let now = snapshot(&board);
+                if now != snaps[k] {
+                    self.viol("C04", "undo-does-not-restore(long-game)", item, &[], format!("after undoing ply {} of a {}-ply game (and a depth-{} tree at its end): {}", k + 1, applied.len(), item.remaining, snaps[k].diff(&now)));
+                    return;
+                }
+            }
+        }
     }
 
     fn renew(&self, l: &mut Local) {
@@ -1171,3 +1210,35 @@ pub const DEEP_SEEDS: &[(&str, &str)] = &[
     ("ep-transpose-castle", "r3k2r/1p5p/8/8/8/8/P6P/R3K2R w KQkq - 0 1"),
     ("kiwipete", "r3k2r/p1ppqpb1/bn2pnp1/3PN3/1p2P3/2N2Q1p/PPPBBPPP/R3K2R w KQkq - 0 1"),
 ];
+
+/// A legal game of `n` plies from the initial position that keeps all four castling rights and a
+/// small half-move clock: both sides shuffle their king's knight, and push a rook pawn one
+/// square whenever the clock passes 80 (C04: nesting depths around the 255 / 256 boundary).
+pub fn preroll_game(n: usize) -> Vec<Move> {
+    let mut p = Pos::startpos();
+    let mut out = Vec::new();
+    let resets = ["a2a3", "a7a6", "h2h3", "h7h6", "a3a4", "a6a5", "h3h4", "h6h5", "b2b3", "b7b6", "g2g3", "g7g6"];
+    let mut next_reset = 0;
+    while out.len() < n {
+        let legal = p.legal_moves();
+        let mut pick: Option<Move> = None;
+        if p.halfmove >= 80 && next_reset < resets.len() {
+            let want = resets[next_reset];
+            let white_move = want.as_bytes()[1] < b'5';
+            if white_move == (p.stm == Side::White) {
+                pick = legal.iter().find(|m| uci(m) == want).copied();
+                if pick.is_some() {
+                    next_reset += 1;
+                }
+            }
+        }
+        let m = pick.unwrap_or_else(|| {
+            // knight shuffle: g1<->f3 for White, g8<->f6 for Black
+            let (a, b) = if p.stm == Side::White { ("g1f3", "f3g1") } else { ("g8f6", "f6g8") };
+            *legal.iter().find(|m| uci(m) == a || uci(m) == b).expect("preroll: knight shuffle not available")
+        });
+        p = p.make(&m);
+        out.push(m);
+    }
+    out
+}
